@@ -307,7 +307,7 @@ def _xfilter(accumulator, test_range, condition, operating_range):
             if condition.startswith(k) and condition != k:
                 operator, condition = k, condition[len(k):]
                 break
-        if operator == '=':
+        if operator in ('=', '<>'):
             it = _re_condition.findall(condition)
             if it:
                 _ = lambda v: re.escape(v.replace('~?', '?').replace('~*', '*'))
@@ -318,6 +318,8 @@ def _xfilter(accumulator, test_range, condition, operating_range):
                 f = lambda v: isinstance(v, str) and bool(match(v))
                 b = np.vectorize(f, otypes=[bool])(test_range['raw'])
                 b &= ~test_range['empty']  # A wildcard matches only text.
+                if operator == '<>':
+                    b = ~b
                 try:
                     return accumulator(operating_range[b])
                 except FoundError as ex:
